@@ -104,6 +104,12 @@ def c12(work, tier, seed):
                             if session == "authed" and len(scripts) % 4 == 1:
                                 sc["loginXFF"] = "192.0.2.77"   # logged in from one address, asks for the file from another
                             scripts.append(sc)
+    # OpenID stacked with basic authentication: a browser that authenticated at the gateway endpoint with basic credentials
+    # (and keeps the cookie it got) has not logged in at the identity provider
+    for store in ("cookie", "file"):
+        for param in ("absent", "listed"):
+            cfgm = dict(base(store, "roundrobin", [["H1", ":", "PA"]], False), auths=["openid", "local"], auth="", tls=True)
+            scripts.append({"id": "cn%05d" % (80000 + len(scripts)), "kind": "connect", "cfg": cfgm, "session": "othermech", "param": param, "user": "user1", "peerIP": "", "xff": "", "replay": False})
     # signed selection: the same query token inside the verifier's clock-skew allowance and, 15 s later, outside it
     # (these scripts wait; they come first so that they run alongside the others)
     for store in ("cookie", "file"):
